@@ -165,6 +165,22 @@ func specialReplay(in io.Reader, raw bool, args []string) (*Summary, error) {
 						}
 					}
 				}
+				// x within a float spacing of 0 and of 1, down to the smallest floats, where closed forms exist:
+				// I_x(a, 1) = x^a and I_x(1, b) = 1 - (1 - x)^b
+				if a == 1 || b == 1 {
+					for _, xx := range []float64{5e-324, 1e-300, 1e-100, 1e-17, math.Ldexp(1, -53), math.Ldexp(1, -52), 1e-9, 1 - 1e-9, 1 - math.Ldexp(1, -52), 1 - math.Ldexp(1, -53)} {
+						var want float64
+						if b == 1 {
+							want = math.Pow(xx, a)
+						} else {
+							want = -math.Expm1(b * math.Log1p(-xx))
+						}
+						sum.Checks++
+						if got := mathx.BetaInc(xx, a, b); !closeF(got, want, 1e-9, 0) {
+							sum.viol("BetaInc-accuracy", c, "BetaInc(%v,%v,%v)=%.15g, closed form %.15g (next to an end point)", xx, a, b, got, want)
+						}
+					}
+				}
 				// the neighbourhood of x = (a+1)/(a+b+2), where implementations of the continued fraction switch to the
 				// reflected form 1 - I_{1-x}(b, a): both sides of the switch, float by float
 				t := (a + 1) / (a + b + 2)
